@@ -1,16 +1,16 @@
 CLAIM = "wip"
 ASSUMPTIONS = []
 LIST_UNITS = ["src/list.c", "src/safe.c"]
-OM = {"out_vformat.4": 90, "out_vformat.0": 3, "out_vformat.1": 4, "out_vformat.2": 4, "out_vformat.3": 3, "out_strlen.0": 41, "out_pad.0": 12, "out_str.0": 42, "out_str.1": 41, "out_hex.0": 9, "out_hex.1": 9, "out_hex.2": 9, "lha_arch_vasprintf.0": 65}
+OM = {"out_vformat.4": 90, "out_vformat.0": 8, "out_vformat.1": 8, "out_vformat.2": 8, "out_vformat.3": 8, "out_strlen.0": 41, "out_pad.0": 12, "out_str.0": 42, "out_str.1": 41, "out_hex.0": 17, "out_hex.1": 24, "out_hex.2": 17, "lha_arch_vasprintf.0": 65}
 LISTL = {"sym_header_fill.0": 4, "sym_header_fill.1": 6, "unix_permissions_print.0": 10, "os9_permissions_print.0": 8, "safe_output.0": 12,
          "last_column.0": 11, "print_list_headings.0": 22, "print_list_headings.1": 11, "print_list_separators.0": 22, "print_list_separators.1": 11,
          "print_columns.0": 11, "print_footers.0": 11, "print_footers.1": 11, "print_footers.2": 12, "print_footers.3": 11, "list_file_contents.0": 4,
-         "do_c19_ranges.0": 6, "ref_text.0": 90, "ref_blanks.0": 20, "ref_shown.0": 6, "ref_perm.0": 11, "ref_perm.1": 11, "ref_method_crc.0": 6, "ref_method_crc.1": 6}
+         "ref_text.0": 90, "ref_blanks.0": 20, "ref_shown.0": 6, "ref_perm.0": 11, "ref_perm.1": 11, "ref_method_crc.0": 6}
 def U(**kw):
     d = dict(OM); d.update(LISTL); d.update(kw); return d
 COLS = [(1, "perm"), (2, "owner"), (3, "sizes"), (4, "ratio"), (5, "method"), (6, "stamp"), (7, "fullstamp"), (8, "name"), (9, "wname"), (10, "level"), (11, "totals"), (12, "footstamp")]
 HARNESSES = [
-    dict(name="col."+n, src="C19/cols.c", defines=["WHICH=%d" % w, "SL=%d" % (2 if n in ("name", "wname") else 3), "OUT_TOKENS=%d" % (16 if n in ("name", "wname") else 32), "OUT_MAXSTR=%d" % (12 if n == "perm" else 8), "VAS_MAX=16"], unwindset=U(**{"c19_compare.0": 33, "harness.0": 9, "lha_arch_vasprintf.0": 17}), units=LIST_UNITS, timeout=180, mem_gb=3,
+    dict(name="col."+n, src="C19/cols.c", defines=["WHICH=%d" % w, "SL=%d" % (2 if n in ("name", "wname") else 3), "OUT_TOKENS=%d" % (16 if n in ("name", "wname") else 32), "OUT_MAXSTR=%d" % (12 if n == "perm" else 8), "VAS_MAX=16"] + (["SYM_METHOD_ANY=1"] if n == "method" else []), unwindset=U(**{"c19_compare.0": 33, "harness.0": 9, "lha_arch_vasprintf.0": 17}), units=LIST_UNITS, timeout=180, mem_gb=3,
          backend=("cvc5" if n in ("ratio", "totals") else "default"))
     for w, n in COLS
 ]
